@@ -35,7 +35,7 @@ PROPS = {
             'decided here: the hand-off of status / trailers / metadata at both ends (encode, decode, status units) AND the call-shape glue: client Grpc::{prepare_request, create_response, streaming, client_streaming, unary, server_streaming} and server Grpc::{map_request_unary, map_request_streaming, map_response, unary, server_streaming, client_streaming, streaming} as sequential async code (Verus treats .await as a call)',
             'the glue is proved RELATIVE to assumed interfaces: the transport (GrpcService: ghost log of requests + the answer its future resolves to), the handler (respond(): its answer is a function of handler and request), the Codec, and the Streaming stream API (try_next / trailers as functions nxt / trl of the stream state, A-tonic-decode-02); Streaming::message / Streaming::trailers are under contract in unit decode (message() is what the REAL poll_next answers when driven to readiness: await of poll_fn modelled as a poll-until-ready loop, A-future-04), but the glue units still see the stream through nxt / trl, not through those contracts',
             'the HTTP/2 transport between the two ends (hyper/h2): that the client http::Response carries the status line, headers, DATA and trailers the server produced, under any fragmentation and interleaving; task scheduling (the property quantifies over readiness interleavings: covered only per poll call by the ghost-history contracts of encode / decode)',
-            'a status raised inside the server stack as a boxed error (a Status anywhere in the cause chain) leaves it as a trailers-only response spelling that status (unit errmap: RecoverError); client Status::from_error_generic is still seen as an opaque function in unit clientglue',
+            'a status raised inside the server stack as a boxed error (a Status anywhere in the cause chain) leaves it as a trailers-only response spelling that status (unit errmap: RecoverError); on the client, Status::from_error_generic is linked into unit clientglue as a callee contract (lemma_transport_error_is_what_it_means: a call whose transport fails returns the status the error means)',
             'the generated code that picks the call shape (tonic-build output) is not under contract; server Grpc::apply_compression_config is (unit serverglue, G7, with the reference pattern of its for loop rewritten by R22)',
         ]),
     'C16': dict(
@@ -56,15 +56,15 @@ PROPS = {
         ]),
     'C14': dict(
         witness=[dict(append_to='tonic/src/status.rs', module='replay/status_witness.rs', crate='tonic', filter='verif_witness_status', features=['--features', 'gzip,deflate,zstd'])],
-        units=['reconnect', 'errmap'], level='proof',
+        units=['reconnect', 'errmap', 'clientglue'], level='proof',
         not_covered=[
             'Connection::{connect,lazy}, the tower Buffer worker in front of Reconnect, hyper connection-death detection (poll_ready of the connected service reporting an error is taken as given)',
-            'ConnectError -> UNAVAILABLE is under contract (unit errmap, same `dyn Error` model as for C09: A-std-error-01); that the connector wraps its failures in ConnectError (Connector / SendRequest) is not',
+            'ConnectError -> UNAVAILABLE is under contract (unit errmap, same `dyn Error` model as for C09: A-std-error-01); that the connector wraps its failures in ConnectError (Connector::call: nested async blocks) is not; on the client the mapping is linked to the call dispatcher (unit clientglue, lemma_transport_error_is_what_it_means: a ConnectError in the cause chain of the transport error makes the call fail with UNAVAILABLE)',
             'liveness ("every call completes") is not claimed: the loop in poll_ready has no decreases clause - a connector that always succeeds and dies at once is a legitimate infinite history; what is proved is the state machine for every finite history',
         ]),
     'C09': dict(
         witness=[dict(append_to='tonic/src/status.rs', module='replay/status_witness.rs', crate='tonic', filter='verif_witness_status', features=['--features', 'gzip,deflate,zstd']), dict(append_to='tonic/src/transport/service/grpc_timeout.rs', module='replay/timeout_witness.rs', crate='tonic', filter='verif_witness_timeout', features=['--features', 'gzip,deflate,zstd']), dict(append_to='tonic/src/request.rs', module='replay/request_witness.rs', crate='tonic', filter='verif_witness_request', features=['--features', 'gzip,deflate,zstd'])],
-        units=['timeout', 'serverconfig', 'errmap'], kani=['timeout_digits'], level='proof',
+        units=['timeout', 'serverconfig', 'errmap', 'clientglue'], kani=['timeout_digits'], level='proof',
         not_covered=[
             'elapsed (virtual) time: that tokio::time::sleep(d) fires after exactly d and the grid of (caller timeout, configured timeout, handler latency) triples - the timer is an assumed primitive (A-tokio-01)',
             'the mapping of TimeoutExpired to a CANCELLED "Timeout expired" status IS under contract (unit errmap: find_status_in_source_chain, Status::{try_from_error, from_error}, RecoverError ResponseFuture::poll), over a model of `dyn Error` as a finite cause chain of the concrete error types the mapping downcasts to (A-std-error-01); the text "Timeout expired" is the literal of the Display impl found in the tree on each run (A-fmt-03)',
